@@ -112,6 +112,7 @@ func runC08(c *run.Ctx) {
 	c08Staged(c)
 	c08Subscription(c)
 	c08BuiltInterface(c)
+	c08RegisteredResolvers(c)
 }
 
 // petsRequests: binding by the @go directive and by name only (no RegisterType) on cold roots of named Go struct types,
@@ -400,7 +401,8 @@ func c08BuiltInterface(c *run.Ctx) {
 	const sdl = "type Query { node: ZzNode nodes: [ZzNode] }\ntype C08BThing implements ZzNode { id: ID size: Int }\ntype C08BOther implements ZzNode { id: ID name: String }\n"
 	const text = `{ node { __typename id ... on C08BThing { size } ... on C08BOther { name } } nodes { __typename ... on C08BOther { name } ... on ZzNode { id } } }`
 	const want = `{"node":{"__typename":"C08BThing","id":"t1","size":3},"nodes":[{"__typename":"C08BOther","id":"o1","name":"n1"},{"__typename":"C08BThing","id":"t2"},null]}`
-	for variant := 0; variant < 4; variant++ {
+	var shared *ggql.Interface
+	for variant := 0; variant < 6; variant++ {
 		q := &c08BQuery{Node: &C08BThing{ID: "t1", Size: 3}, Nodes: []interface{}{&C08BOther{ID: "o1", Name: "n1"}, &C08BThing{ID: "t2", Size: 4}, nil}}
 		root := ggql.NewRoot(&c08BRoot{Query: q})
 		mk := func() *ggql.Interface {
@@ -408,11 +410,29 @@ func c08BuiltInterface(c *run.Ctx) {
 			_ = i.AddField(&ggql.FieldDef{Base: ggql.Base{N: "id"}, Type: &ggql.Ref{Base: ggql.Base{N: "ID"}}})
 			return i
 		}
+		if variant >= 4 {
+			// types built once, a root per tenant: the SAME interface value was adopted by another root before (which has
+			// implementers of its own and has answered requests); this root resolves against ITS object types
+			if shared == nil {
+				shared = mk()
+				other := ggql.NewRoot(&c08BRoot{Query: &c08BQuery{Node: &C08BOther{ID: "x", Name: "y"}}})
+				if err := other.AddTypes(shared); err == nil {
+					_ = other.ParseString("type Query { node: ZzNode nodes: [ZzNode] }\ntype C08BOther implements ZzNode { id: ID name: String }\ntype ZzOnlyThere implements ZzNode { id: ID }\n")
+					_ = other.ResolveString(`{ node { __typename id } __type(name: "ZzNode") { possibleTypes { name } } }`, "", nil)
+				}
+			}
+			keep := mk
+			_ = keep
+			mk = func() *ggql.Interface { return shared }
+		}
 		var err error
 		how := ""
 		switch variant {
-		case 0, 1:
+		case 0, 1, 4, 5:
 			how = "AddTypes(interface), then the document"
+			if variant >= 4 {
+				how = "AddTypes(an interface value another root adopted before), then the document"
+			}
 			if err = root.AddTypes(mk()); err == nil {
 				err = root.ParseString(sdl)
 			}
@@ -429,10 +449,10 @@ func c08BuiltInterface(c *run.Ctx) {
 			continue
 		}
 		req, exp := text, want
-		if variant >= 2 {
+		if variant == 2 || variant == 3 {
 			continue // the fields node/nodes are Int-typed in this arrangement: only the loading is exercised
 		}
-		if variant == 1 {
+		if variant == 1 || variant == 5 {
 			_ = root.ResolveString(`{ __type(name: "ZzNode") { possibleTypes { name } } }`, "", nil)
 		}
 		var res map[string]interface{}
@@ -442,6 +462,77 @@ func c08BuiltInterface(c *run.Ctx) {
 		got := ref.Render(ref.Canon(res["data"]))
 		if pv != nil || res["errors"] != nil || got != exp {
 			c.Violation("c08-static-binding", map[string]interface{}{"how": how, "sdl": sdl, "document": req, "diff": fmt.Sprintf("panic=%v errors=%v", pv, res["errors"]), "expected": exp, "observed": got})
+		}
+	}
+}
+
+// ---------------------------------------------------------------- Resolver objects of registered Go types
+
+type c08RDog struct{ name string }
+type c08RCat struct{ name string }
+type c08RQuery struct{}
+
+func (d *c08RDog) Resolve(f *ggql.Field, _ map[string]interface{}) (interface{}, error) {
+	if f.Name == "barks" {
+		return 3, nil
+	}
+	return d.name, nil
+}
+func (k *c08RCat) Resolve(f *ggql.Field, _ map[string]interface{}) (interface{}, error) {
+	if f.Name == "lives" {
+		return 9, nil
+	}
+	return k.name, nil
+}
+func (q *c08RQuery) Resolve(f *ggql.Field, _ map[string]interface{}) (interface{}, error) {
+	switch f.Name {
+	case "query":
+		return q, nil
+	case "pet", "must":
+		return &c08RDog{"rex"}, nil
+	case "friend":
+		return &c08RCat{"tom"}, nil
+	}
+	return []interface{}{&c08RCat{"kit"}, &c08RDog{"fido"}, nil, &c08RCat{"tom"}}, nil
+}
+
+// c08RegisteredResolvers: a mixed graph - the objects resolve their own fields (ggql.Resolver) and their Go types are
+// registered for their object types. Behind interface- and union-typed fields they are resolved as their concrete types:
+// __typename, fragments on the concrete type, on the interface and on the union.
+func c08RegisteredResolvers(c *run.Ctx) {
+	const sdl = "type Query { pet: Pet must: Pet! pets: [Pet] friend: Friend friends: [Friend!] }\ninterface Pet { name: String }\nunion Friend = Dog | Cat\ntype Dog implements Pet { name: String barks: Int }\ntype Cat implements Pet { name: String lives: Int }\n"
+	cases := []struct{ text, want string }{
+		{`{ pet { __typename name ... on Dog { barks } ... on Cat { lives } } }`, `{"pet":{"__typename":"Dog","barks":3,"name":"rex"}}`},
+		{`{ must { ... on Dog { n: name } ... on Friend { __typename } } }`, `{"must":{"__typename":"Dog","n":"rex"}}`},
+		{`{ pets { __typename ... on Cat { lives } ...D } } fragment D on Dog { barks name }`,
+			`{"pets":[{"__typename":"Cat","lives":9},{"__typename":"Dog","barks":3,"name":"fido"},null,{"__typename":"Cat","lives":9}]}`},
+		{`{ friend { __typename ... on Pet { name } ... on Cat { lives } } }`, `{"friend":{"__typename":"Cat","lives":9,"name":"tom"}}`},
+		{`{ friends { ... on Dog { barks } ... on Cat { name } } }`, `{"friends":[{"name":"kit"},{"barks":3},null,{"name":"tom"}]}`},
+	}
+	for round := 0; round < 3; round++ {
+		root := ggql.NewRoot(&c08RQuery{})
+		err := root.ParseString(sdl)
+		if err == nil {
+			err = root.RegisterType(&c08RDog{}, "Dog")
+		}
+		if err == nil {
+			err = root.RegisterType(&c08RCat{}, "Cat")
+		}
+		if err != nil {
+			c.Violation("c08-schema-rejected", map[string]interface{}{"sdl": sdl, "error": err.Error()})
+			return
+		}
+		for k := range cases {
+			cs := cases[(k+round)%len(cases)]
+			var res map[string]interface{}
+			pv, _ := run.Protect(func() { res = root.ResolveString(cs.text, "", nil) })
+			c.Eval(fmt.Sprintf("registered-resolvers|%d|%s", round, cs.text), true)
+			c.Count("static_binding_documents", 1)
+			got := ref.Render(ref.Canon(res["data"]))
+			if pv != nil || got != cs.want {
+				c.Violation("c08-static-binding", map[string]interface{}{"how": "Resolver objects whose Go types are registered (RegisterType)", "sdl": sdl, "document": cs.text,
+					"diff": fmt.Sprintf("panic=%v errors=%v", pv, res["errors"]), "expected": cs.want, "observed": got})
+			}
 		}
 	}
 }
